@@ -204,6 +204,9 @@ func (s *Share[E]) UnmarshalCBOR(data []byte) error {
 	if err != nil {
 		return errs.Wrap(err).WithMessage("failed to unmarshal ISN Share")
 	}
+	if dto == nil {
+		return errs.Wrap(serde.ErrNull).WithMessage("failed to unmarshal ISN Share")
+	}
 
 	ss, err := NewShare(dto.ID, dto.V)
 	if err != nil {
